@@ -19,10 +19,10 @@ VARIABLE l
 
 Init == l = 1
 Next == /\ l <= Len(Events)
-        /\ LET e == Events[l] IN
-             \/ EpAccept(e)
-             \/ /\ EpKnown(e) # ""
-                /\ PrintT(<<"@@", "KF", EpKnown(e), e.i>>)
+        /\ LET e == Events[l] IN          \* IF, not a disjunction: TLC then evaluates EpAccept as an
+             IF EpAccept(e) THEN TRUE      \* expression (short-circuit) instead of enumerating its disjuncts
+             ELSE /\ EpKnown(e) # ""       \* as alternative successor states
+                  /\ PrintT(<<"@@", "KF", EpKnown(e), e.i>>)
         /\ l' = l + 1
 Spec == Init /\ [][Next]_l
 Reached == PrintT(<<"@@", "REACHED", TLCGet("stats").diameter - 1>>)
